@@ -7,6 +7,7 @@
 /* Verification hooks, see anneal_quso.c. */
 #include <stdio.h>
 extern long qvverif_checks, qvverif_mismatches, qvverif_bounds;
+extern double qvverif_maxdev;
 static int qvverif_puso_len_state = 0;
 static long qvverif_puso_num_terms = 0;
 static double qvverif_puso_scale = 1.;
@@ -192,6 +193,11 @@ void single_anneal_puso(
                                              num_couplings, terms, couplings);
                 state[i] *= -1;
                 qvverif_checks++;
+                if(fabs((qv_after - qv_before) - dE) / qvverif_puso_scale
+                        > qvverif_maxdev) {
+                    qvverif_maxdev = fabs((qv_after - qv_before) - dE)
+                                     / qvverif_puso_scale;
+                }
                 if(fabs((qv_after - qv_before) - dE)
                         > 1e-7 * qvverif_puso_scale) {
                     qvverif_mismatches++;
